@@ -152,7 +152,8 @@ let handle kind c =
     let flagged = Hashtbl.create 8 in
     let void_ready = Hashtbl.create 4 in
     let lock_holder = Hashtbl.create 4 in
-    let refused_final = Hashtbl.create 4 in   (* weeks the server did not accept from the final run *)
+    let refused_final = Hashtbl.create 4 in
+    let read_raw = Array.make nth None in       (* per thread: the report file it read last, and what was in it *)   (* weeks the server did not accept from the final run *)
     let once cls d f = if not (Hashtbl.mem flagged (cls, d)) then (Hashtbl.replace flagged (cls, d) (); f cls d) in
     let witness_ever w =
       Hashtbl.mem ever_local ("local." ^ w ^ ".json") || Hashtbl.mem ever_local (w ^ ".json")
@@ -201,6 +202,11 @@ let handle kind c =
           | "kill" -> incr kills; (AKill, None)
           | k -> failwith ("act " ^ k)) in
       let label = string_of_bytes (next_bytes c) in
+      (if has_prefix label "ReadFile " && has_suffix label ".json" then
+         let base = (match String.rindex_opt label '/' with Some k -> String.sub label (k + 1) (String.length label - k - 1) | None -> label) in
+         match List.assoc_opt base !prev_local with
+         | Some (r, _) -> read_raw.(tid) <- Some (base, r)
+         | None -> read_raw.(tid) <- None);
       let posted = next_bool c in
       let post = if posted then begin
           let w = string_of_bytes (next_bytes c) in
@@ -304,6 +310,12 @@ let handle kind c =
       (* C08 *)
       (match post, outc with
        | Some (w, b, f), Some o ->
+         (* C08_posted_verbatim_read: the body of a request is the content the run read from the report file *)
+         (match read_raw.(tid) with
+          | Some (f', r) when f' = f && r <> b ->
+            once "posted_not_verbatim" (Printf.sprintf "step %d: the request for week %s does not carry the content read from %s (%s)" i w f
+                                          (show_desc descs.(b))) prop08
+          | _ -> ());
          if tid = nth - 1 && o <> O200 then Hashtbl.replace refused_final w ();
          if List.mem_assoc (w ^ ".json") !prev_up then
            once "resend_after_record" (Printf.sprintf "step %d: request for week %s while upload/%s.json exists" i w w) prop08;
